@@ -1,18 +1,49 @@
 """C07 - A sized IP pool never grows beyond its size."""
 import plugincheck
 
-THEOREMS = []
-REFUTED = []
+THEOREMS = ["pool_cap_filter", "pool_cap_filter_other", "pool_cap_filter_reachable", "ns_ok_reachable", "pool_cap_prealloc",
+            "pool_cap_prealloc_other", "pool_count_release_steps", "pool_cap_bind_partial", "pool_cap_bind_no_alloc",
+            "pool_cap_history", "pool_cap_invariant", "pool_key_is_prefix", "pool_pod_counted"]
+REFUTED = ["pool_cap_refuted_late_pool"]
 KNOWN_FINDINGS = [
     {"id": "K2", "status": "open", "tag": plugincheck.K2_TAG,
      "what": "Bind allocates a fresh IP for a pod of a sized pool without consulting the size: a pod filtered while no Pool "
              "object was visible (so filter did not allocate) is bound after the Pool(size 1) appeared and brings the pool to 2 "
              "IPs; witness pool_cap_refuted_late_pool, scenario K2-late-pool-object"},
+    {"id": "F10", "status": "fixed", "commit": "8bbc8a6", "tag": "c07-size-read-before-lock",
+     "what": "fixed: property=C07 8bbc8a6 filter read the pool size before taking the pool lock, so a shrink that landed in between "
+             "was ignored; after the repair reading the size, counting and allocating are one section under the pool lock, which is "
+             "what the model's atomic filter step mirrors"},
 ]
+
+MANIFEST = {
+    "text": "Coq theorems over the scheduler-plugin model extended with the pool API (Model/PluginPool.v: POST /v1/pool with "
+            "preAllocateIP as one section under the pool lock): pool_cap_filter / pool_cap_filter_reachable - a filter step never "
+            "brings the number of IPs held under a pool's prefix above max(previous count, size the Pool lister shows), for any "
+            "number of deployments and pods sharing the pool; pool_cap_prealloc - pre-allocation never exceeds the requested size "
+            "and reaches it on success; *_other - other pools' counts are untouched; pool_count_release_steps - events, resync "
+            "items and API releases never increase a count; pool_cap_bind_no_alloc / pool_cap_bind_partial - bind does not change "
+            "any count when the pod's key already holds an IP (which filter guarantees for a visible sized pool); pool_cap_history "
+            "/ pool_cap_invariant - for ALL extended histories (any interleaving of filter, bind, pool create/update requests and "
+            "everything else at section granularity: these requests hold the pool mutex in the code) in which bind never "
+            "allocates for a pool pod, every step respects the size in force. The excluded case is the recorded defect K2, "
+            "proved as pool_cap_refuted_late_pool and reproduced on the real code. Tied to the code by pool scenario + random "
+            "histories (real Filter/Bind and the real PoolController.CreateOrUpdate) vs the model step by step and by the cap "
+            "predicate on the implementation's dumps after every step.",
+    "note": "trusted: Coq kernel (no axioms); harness fakes; section atomicity: filter (after fix 8bbc8a6) and preAllocateIP hold the "
+            "pool mutex from reading the size to allocating, so concurrent requests serialise - real goroutine interleavings are not "
+            "explored; pool names are '_'-free (K4); the Pool object reaches galaxy-ipam through its lister (EPoolSet)",
+}
 
 
 def run(ctx):
-    ctx.cov["rule"] = "wip"
+    ctx.cov["rule"] = ("extended histories (plugin sections, environment operations, pool API requests): pool scenarios (1-3 "
+                       "deployments sharing pool p1, sizes 0-4, pods filtered before earlier ones are bound, Pool object created / "
+                       "resized / removed in the lister and through POST /v1/pool with and without pre-allocation, store faults) + "
+                       "the K2 history + random histories with pool requests; each runs on the REAL FloatingIPPlugin and "
+                       "PoolController and on the model (Model/Plugin.v + PluginPool.v), compared after every step; monitor: after "
+                       "every filter / bind / pool request / release step the count under the pool prefix is at most max(previous "
+                       "count, size in force)")
     rng = ctx.rng
     plugincheck.run(ctx, "C07", THEOREMS, REFUTED, plugincheck.mon_c07, ext=True, incarnations=False,
                     extra_scenarios=plugincheck.pool_scenarios(rng, ctx, 120 if ctx.quick else 1200),
